@@ -62,6 +62,10 @@ const (
 )
 
 func (p *Parser) rune() rune {
+	if p.r == runeEOF {
+		// Reading past the end must not keep advancing the column.
+		return runeEOF
+	}
 	if p.r == '\n' || p.r == escNewl {
 		// p.r instead of b so that newline
 		// character positions don't have col 0.
